@@ -18,6 +18,11 @@ def leaf_key(e):
     return sym.show(e)
 
 
+class _Unevaluated:
+    def __init__(self, why):
+        self.why = why
+
+
 class VName(str):
     """variant name that remembers the enum it belongs to (compares and hashes as the bare name)"""
     path = None
@@ -60,6 +65,8 @@ def _evaluate(e, env, bits=64):
         except Uneval:
             base = None
         if isinstance(base, dict) and e[2] in base:
+            if isinstance(base[e[2]], _Unevaluated):
+                raise Uneval(base[e[2]].why)
             return base[e[2]]
         if isinstance(base, tuple) and str(e[2]).isdigit() and (not base or base[0] not in ("$variant", "$closure", "$fnref", "$list")) and int(e[2]) < len(base):
             return base[int(e[2])]
@@ -180,6 +187,18 @@ def _evaluate(e, env, bits=64):
     if k == "agg" and e[1].startswith("closure:"):
         return ("$closure", e[1][len("closure:"):], tuple(evaluate(a, env, bits) for a in e[2]))
     if k == "agg" and "::" in e[1]:
+        prog_ = env.get("@prog")
+        sdef = prog_.adts.get(e[1].rsplit("::", 1)[0]) if prog_ is not None else None
+        if sdef is not None and sdef.get("kind") == "struct" and sdef.get("variants") and len(sdef["variants"][0]["fields"]) == len(e[2]) and len(e[2]) > 1:
+            # a struct built in place: its fields by name (operands are in declaration order); a field that cannot be evaluated
+            # is only an error for whoever reads that field
+            out = {}
+            for (fname, _fty), a in zip(sdef["variants"][0]["fields"], e[2]):
+                try:
+                    out[fname] = evaluate(a, env, bits)
+                except Uneval as u:
+                    out[fname] = _Unevaluated(str(u))
+            return out
         vn = VName(e[1].rsplit("::", 1)[-1])
         vn.path = e[1].rsplit("::", 1)[0]
         if len(e[2]) == 1:
@@ -459,9 +478,22 @@ def seq_len(e, env, bits=64):
     raise Uneval(key)
 
 
+def _computed_field(x):
+    """a field read off a value that is itself computed here (a struct built in place, a select between two of them): not an
+    input of the expression -- it is evaluated structurally"""
+    if x[0] != "field":
+        return False
+    r = x
+    while isinstance(r, tuple) and r and r[0] == "field":
+        r = r[1]
+    return isinstance(r, tuple) and bool(r) and r[0] in ("agg", "select")
+
+
 def leaves(e):
     out = {}
     for x in sym.walk(e):
+        if _computed_field(x):
+            continue
         if x[0] in ("param", "field", "var", "index", "len", "static", "discr") or (x[0] == "call" and x[1].rsplit("::", 1)[-1] not in (
                 "min", "max", "leading_zeros", "trailing_zeros", "wrapping_mul", "wrapping_add", "wrapping_sub", "rotate_left", "div_ceil",
                 "sqrt", "ceil", "floor", "ln", "log2", "powf", "exp2", "saturating_sub")):
@@ -489,7 +521,7 @@ def top_leaves(e):
             for z in x:
                 go(z)
             return
-        if x[0] in ("param", "field", "var", "index", "len", "static", "discr", "fieldat") or (x[0] == "call" and x[1].rsplit("::", 1)[-1] not in _PURE):
+        if not _computed_field(x) and (x[0] in ("param", "field", "var", "index", "len", "static", "discr", "fieldat") or (x[0] == "call" and x[1].rsplit("::", 1)[-1] not in _PURE)):
             out[leaf_key(x)] = x
             return
         for y in x[1:]:
